@@ -16,6 +16,7 @@ import (
 type hbState struct{}
 
 type syncObj struct {
+	pool    []value // sync.Pool free list
 	counter int64 // WaitGroup counter
 	locked  bool  // Mutex
 	owner   int
@@ -70,6 +71,51 @@ func (x *Exec) spawn(fr *frame, instr *ssa.Go, fn value, args []value) {
 }
 
 func registerSyncStubs(reg func(string, intrinsic)) {
+	// sync.Pool as a per-pool LIFO free list (one legal behaviour of the real pool; the real one may also
+	// drop items at any time — code that is only correct when items are dropped is not modelled).
+	// A Get/Put is a synchronising access to the pool.
+	reg("(*sync.Pool).Put", func(x *Exec, fr *frame, args []value) value {
+		p := args[0].(*value)
+		s := x.syncOf(p)
+		if x.sched != nil {
+			x.sched.syncPoint(x, p, "pool.Put")
+		}
+		if iv, ok := args[1].(iface); ok && iv.t == nil {
+			return nil
+		}
+		s.pool = append(s.pool, args[1])
+		return nil
+	})
+	reg("(*sync.Pool).Get", func(x *Exec, fr *frame, args []value) value {
+		p := args[0].(*value)
+		s := x.syncOf(p)
+		if x.sched != nil {
+			x.sched.syncPoint(x, p, "pool.Get")
+		}
+		if n := len(s.pool); n > 0 {
+			v := s.pool[n-1]
+			s.pool = s.pool[:n-1]
+			return v
+		}
+		st, ok := (*p).(structure)
+		if !ok {
+			panic(unsupported{"sync.Pool of unexpected shape"})
+		}
+		newFn := st[len(st)-1] // the New field is the last field of sync.Pool
+		switch f := newFn.(type) {
+		case nil:
+			return iface{}
+		case *closure:
+			if f == nil {
+				return iface{}
+			}
+		case *ssa.Function:
+			if f == nil {
+				return iface{}
+			}
+		}
+		return x.call(fr, token.NoPos, newFn, nil)
+	})
 	reg("(*sync.WaitGroup).Add", func(x *Exec, fr *frame, args []value) value {
 		s := x.syncOf(args[0].(*value))
 		d := x.concInt(args[1], "WaitGroup.Add delta")
